@@ -16,6 +16,7 @@ static tree_state want;
 static int attr[T_MAXF];          /* bit0 foreign owner, bit1 foreign group, bit2 symlink */
 static int restr;                 /* bit0 requireOwner, bit1 requireGroup, bit2 no symlinks, bit3 a permission requirement that every file and directory of the tree satisfies */
 #define HUGE_ID 3000000000u   /* a legal id above 2^31 */
+static int setorder;              /* order/spelling of the setter calls: 0 plain, 1 explicit followSymlinks(true) last, 2 symlink rule first */
 static int huge;                  /* 0: required ids are 0; 1: required ids are HUGE_ID, no file has them; 2: required ids are HUGE_ID and the files that are not foreign have them */
 #define FOREIGN_UID 12345
 #define FOREIGN_GID 23456
@@ -58,6 +59,7 @@ static void gen(void)
   restr = mc_choose(16);
   for (int id = 0; id < ts.nfiles; id++) attr[id] = present(&want, id) ? mc_choose_dev(8) : 0;
   huge = (restr & 3) ? mc_choose_dev(3) : 0;     /* deviation: the required owner/group id is a large one */
+  setorder = !restr ? 0 : !(restr & 4) ? mc_choose(2) : 2 * mc_choose_dev(2);
 }
 
 static bool cb_accept(const char *filename, const void *data) { (void)filename; (void)data; return true; }
@@ -159,6 +161,7 @@ static void exec(void)
   int nlist = t_ref_list(&want, list);
   if (mc_tag < 2 && want.mainst[0] == M_ABSENT) nlist = 0;
   sb_printf(&sig, "%s restrictions={%s%s%s%s} attrs={", EPN[mc_tag], (restr & 1) ? "owner " : "", (restr & 2) ? "group " : "", (restr & 4) ? "nosymlink " : "", (restr & 8) ? "permissions(satisfied)" : "");
+  if (setorder) sb_printf(&sig, "setter-order=%d ", setorder);
   if (huge) sb_printf(&sig, "required-id=%u(%s) ", HUGE_ID, huge == 1 ? "no file has it" : "conforming files have it");
   for (int id = 0; id < ts.nfiles; id++) if (attr[id]) sb_printf(&sig, "%s:%s%s%s ", t_path[id] + strlen(root), (attr[id] & 1) ? "foreign-owner," : "", (attr[id] & 2) ? "foreign-group," : "", (attr[id] & 4) ? "symlink" : "");
   sb_puts(&sig, "} tree="); t_describe(&sig, &want);
@@ -167,11 +170,13 @@ static void exec(void)
   for (int id = 0; id < ts.nfiles; id++) if (attr[id]) apply_attr(id);
 
   econf_reset_security_settings();
+  if (setorder == 2) econf_followSymlinks(!(restr & 4));  /* the rules are independent of the order in which they are set */
   if (restr & 1) econf_requireOwner(huge ? HUGE_ID : 0);
   if (restr & 2) econf_requireGroup(huge ? HUGE_ID : 0);
   if (huge == 2) for (int id = 0; id < ts.nfiles; id++) if (present(&want, id) && !(attr[id] & 4))
     if (lchown(t_path[id], (attr[id] & 1) ? FOREIGN_UID : HUGE_ID, (attr[id] & 2) ? FOREIGN_GID : HUGE_ID) != 0) mc_die("lchown to the large id: %s", strerror(errno));
   if (restr & 4) econf_followSymlinks(false);
+  else if (setorder == 1) econf_followSymlinks(true);      /* saying what is the default anyway, after the other rules: changes nothing */
   if (restr & 8) econf_requirePermissions(0644, 0755);   /* satisfied everywhere: must not change what the other rules decide */
 
   /* first consulted file that violates an active rule */
